@@ -47,6 +47,13 @@ for _w, _field, _ext, _ty in (('write_pickle', 'pickleFileName', 'pickle', {}),
     }
     if _w == 'write_pickle':
         ens['returns_name'] = f"result == {_name}"
+        # round 3: WHAT is written (the ghost file system models content): the raw results object is dumped
+        ens['content'] = f"fs_content({_name}) == fs_pickled(self.data)"
+    else:
+        _gen = {'write_html': 'self.get_html(only_robust)', 'write_latex': 'self.get_latex()',
+                'write_f12': 'self.get_f12(robust_std_err)'}[_w]
+        # ... the file holds exactly the text of the report generator called with the writer's own argument
+        ens['content'] = f"fs_content({_name}) == {_gen}"
     contract(R + _w, 'C14', types=_ty, modifies=[f'*.{_field}'], ensures=ens,
              replay=_WRITER_REPLAY.format(only=_w))
 
@@ -56,13 +63,20 @@ contract(D + 'dump_on_file', 'C14',
              'was_free': "not fs_was_file(result)",
              'written': "fs_is_file(result)",
              'only_new_file': _ONLY_NEW.replace('NAME', 'result'),
+             'content': "fs_content(result) == fs_csv(self.data)",
          },
          replay=_WRITER_REPLAY.format(only='dump_on_file'))
 
 contract(D + 'generate_flat_panel_dataframe', 'C14',
          types={'save_on_file': 'bool', 'identical_columns': 'Any'},
-         may_raise=['BiogemeError'],
+         raises={'BiogemeError': 'self.panelColumn is None'},          # refused iff the data is not panel (round 3)
          ensures={
              'no_file_unless_asked': "implies(not save_on_file, forall(lambda p: fs_is_file(p) == old(fs_is_file(p)), ty='str'))",
+             # round 3: the flattened frame of THIS table is returned, and it is what goes to the one new file
+             'returns_flat_frame': "same(result, biogeme.tools.database.flatten_database(self.data, self.panelColumn, "
+                                   "identical_columns=identical_columns))",
+             'one_new_file_when_asked': "implies(save_on_file, exists(lambda f: not fs_was_file(f) and fs_is_file(f) "
+                                        "and fs_content(f) == fs_csv(result) and forall(lambda p: implies(p != f, "
+                                        "fs_is_file(p) == old(fs_is_file(p))), ty='str'), ty='str'))",
          },
          replay=_WRITER_REPLAY.format(only='generate_flat_panel_dataframe'))
